@@ -247,3 +247,31 @@ void bad_grow_early_return(int quick)		/* control: a path leaves before the real
 	if (quick) return;
 	late = reallocate_array(late, cur_max2, sizeof(int));
 }
+
+/* ---------------------------------------------------------------- R10 */
+struct _scanopt_t { const void *options; int optc; int argc; char **argv; int index; int subscript; };
+char *good_scanopt(struct _scanopt_t *s, char *optarg, int needs_arg)
+{
+	int has_next;
+	if (s->index >= s->argc) return 0;
+	use(s->argv[s->index]);
+	has_next = s->index + 1 < s->argc;
+	if (needs_arg) {
+		if (!optarg && !has_next) return 0;
+		if (!optarg) { s->index += 2; return s->argv[s->index - 1]; }
+	}
+	s->index += 1;
+	return optarg;
+}
+char *bad_scanopt(struct _scanopt_t *s, char *optarg, int needs_arg)	/* control: <= lets the last word through */
+{
+	int has_next;
+	if (s->index >= s->argc) return 0;
+	has_next = s->index + 1 <= s->argc;
+	if (needs_arg) {
+		if (!optarg && !has_next) return 0;
+		if (!optarg) return s->argv[s->index + 1];
+	}
+	return optarg;
+}
+char *bad_scanopt_entry(struct _scanopt_t *s) { return s->argv[s->index]; }	/* control: no entry guard */
